@@ -1,6 +1,6 @@
 (* Props/C17.v — C17: whitespace, entity and attribute normalisation preserves meaning.
    Statements only; each is closed by [exact] of a lemma proved in Normalise/*Proofs.v. *)
-From Verif Require Import Common.Base Normalise.Model Normalise.Spec Normalise.WsProofs Normalise.EscProofs Normalise.EntProofs Normalise.AttrProofs Normalise.Compose Normalise.Partial.
+From Verif Require Import Common.Base Normalise.Model Normalise.Spec Normalise.WsProofs Normalise.EscProofs Normalise.EntProofs Normalise.AttrProofs Normalise.Compose Normalise.Partial Normalise.Idem Normalise.Dec.
 
 (* ReplaceMultipleWhitespace (the in-place j/k compaction with its three exit cases) neither panics nor
    runs out of fuel and returns the unique o with [Collapse false b o]: b cut into maximal runs of
@@ -20,26 +20,30 @@ Theorem entities_never_longer :
 Proof. exact entities_never_longer_proof. Qed.
 Print Assumptions entities_never_longer.
 
-(* Idempotence, proved part: on every [clean] input (text without '&' interleaved with any number of
-   terminated decimal / hexadecimal references, leading zeros allowed, to ASCII bytes other than NUL and
-   '&', none of them to a letter, digit, '#' or ';' directly behind 34 or more bytes of [0-9a-zA-Z#]; any name
-   map, no reverse map) ReplaceEntities returns the decoded text and a second pass changes nothing.
-   Missing: all other shapes.  Since /repo 628a240 + c07f47f (look-behind) no counterexample is known: the
-   former witnesses `&#x&#x41;;` and `&#` 32 digits `&#59;` are now left unchanged (corpus, oracle). *)
-Theorem entities_idempotent_partial :
-  forall em b o, clean b o ->
-    replace_entities em [] b = Ok o /\ replace_entities em [] o = Ok o.
-Proof. exact entities_idempotent_partial_proof. Qed.
-Print Assumptions entities_idempotent_partial.
+(* ReplaceEntities is idempotent: for every input, a second pass over the result changes nothing.  For all entity
+   maps with no replacement longer than a reference (maps_ok) whose replacements are of the shapes HTML entity
+   tables use: a name maps to the single byte '&' or to a non-empty string of bytes other than '&' and decimal
+   references reaching 128 such as `&#198;` (em_stable); a reverse-map entry c -> q is one terminated reference
+   that the decision function of replaceEntities keeps (rm_stable, a boolean check; e.g. '<' -> `&lt;` with
+   lt -> '<').  True since the look-behind of /repo 628a240 + c07f47f; before, `&#x&#x41;;` -> `&#xA;` -> LF. *)
+Theorem entities_idempotent :
+  forall em rm, maps_ok em rm = true -> em_stable em -> rm_stable em rm = true ->
+    forall b, exists o, replace_entities em rm b = Ok o /\ replace_entities em rm o = Ok o.
+Proof. exact entities_idempotent_proof. Qed.
+Print Assumptions entities_idempotent.
 
-(* Decoded text unchanged, proved part: on every [clean] input the output IS the decoding of the input (and,
-   containing no '&', decodes to itself).  Missing: all other shapes (no counterexample known since the
-   look-behind fixes). *)
-Theorem entities_preserve_decoding_partial :
-  forall em b o, clean b o ->
-    replace_entities em [] b = Ok o /\ html_decode b = o /\ html_decode o = o.
-Proof. exact entities_preserve_decoding_partial_proof. Qed.
-Print Assumptions entities_preserve_decoding_partial.
+(* ReplaceEntities leaves the decoded text unchanged: for every input, the output decodes (hdec: terminated
+   decimal and hexadecimal references to their value, `&name;` to what the map's replacement for the name decodes
+   to, everything else literal; a reference to NUL decodes to 0, as ReplaceEntities writes it) to the same code
+   points as the input.  Same hypotheses on the maps as entities_idempotent, plus: every reverse-map entry c -> q
+   decodes back to c (rm_dec_ok, a boolean check).  True since the look-behind of /repo 628a240 + c07f47f; before,
+   `&#x&#x41;;` (the text `&#xA;`) became the reference `&#xA;`.  Semicolon-less references and the full HTML name
+   table are covered by the Go oracle (html.UnescapeString) only. *)
+Theorem entities_preserve_decoding :
+  forall em rm, maps_ok em rm = true -> em_stable em -> rm_stable em rm = true -> rm_dec_ok em rm = true ->
+    forall b, exists o, replace_entities em rm b = Ok o /\ hdec em o = hdec em b.
+Proof. exact entities_preserve_decoding_proof. Qed.
+Print Assumptions entities_preserve_decoding.
 
 (* Over-long hexadecimal references are never decoded modulo anything: a reference `&#x` hs `;` whose value
    (as an unbounded number, any number of digits) is 10000 or more, standing in text without other '&', is
